@@ -21,6 +21,15 @@ func checkC06(c *Ctx, r *Report) {
 	c06b(c, r)
 	c06c(c, r, st)
 	c06d(c, r, st)
+	// a token code must reach a terminal's column only: translate's cases are exactly the terminals (C11.c)
+	sub := &Report{Prop: "C06", Extra: map[string]interface{}{}}
+	c11c(c, sub, st)
+	for _, o := range sub.Obls {
+		if strings.Contains(o.Construct, "buildTranslate") {
+			n := r.add("C06.d←"+o.Clause, o.Rule, o.Construct, o.Pos, o.Verdict, o.Detail)
+			n.Nontriv = true
+		}
+	}
 }
 
 var reConstAssign = regexp.MustCompile(`const (ERROR_ACTION|ACCEPT_ACTION) =([^\n]*)`)
